@@ -799,7 +799,8 @@ class Background2D:
 
         The array has NaN values where meshes were excluded.
         """
-        data = self.background_mesh.copy()
+        # float copy (an integer-dtype mesh cannot hold NaN)
+        data = self.background_mesh.astype(float)
         data[self._mesh_nan_mask] = np.nan
         return data
 
@@ -812,7 +813,8 @@ class Background2D:
 
         The array has NaN values where meshes were excluded.
         """
-        data = self.background_rms_mesh.copy()
+        # float copy (an integer-dtype mesh cannot hold NaN)
+        data = self.background_rms_mesh.astype(float)
         data[self._mesh_nan_mask] = np.nan
         return data
 
